@@ -142,6 +142,23 @@ def add(*ts):
         if all(x is infs[0] for x in infs):
             return infs[0]
         return const(float('nan'))
+    # collect like terms:  k1*t + k2*t -> (k1+k2)*t
+    if len(flat) > 1:
+        coef = {}
+        order = []
+        for x in flat:
+            k, base = _split_coef(x)
+            if base not in coef:
+                coef[base] = Fraction(0)
+                order.append(base)
+            coef[base] += k
+        if len(order) < len(flat) or any(coef[b] == 0 for b in order):
+            flat = []
+            for b in order:
+                k = coef[b]
+                if k == 0:
+                    continue
+                flat.append(b if k == 1 else mul(const(k), b))
     if c != 0:
         flat.append(const(c))
     if not flat:
@@ -150,6 +167,22 @@ def add(*ts):
         return flat[0]
     flat.sort(key=_order)
     return T('add', tuple(flat), _nsort(*flat))
+
+
+def _split_coef(x):
+    """x = k * base with k a rational constant"""
+    if x.op == 'mul':
+        ks = [a for a in x.args if _num(a) is not None]
+        if ks:
+            rest = [a for a in x.args if _num(a) is None]
+            k = Fraction(1)
+            for a in ks:
+                k *= _num(a)
+            if len(rest) == 1:
+                return k, rest[0]
+            rest.sort(key=_order)
+            return k, T('mul', tuple(rest), _nsort(*rest))
+    return Fraction(1), x
 
 
 def _order(t):
